@@ -57,8 +57,6 @@ pub fn check_space_error(it: &Interp, ctx: &Ctx, info: &StepInfo) -> Option<Fail
             let allocated = free_before.saturating_sub(free_after) as u64;
             let chain_before = chain_now.saturating_sub(allocated);
             let need_total = (off as u64 + n as u64 + cb - 1) / cb;
-            // a zero-length write still needs a first cluster in this crate
-            let need_total = need_total.max(1);
             let need_new = need_total.saturating_sub(chain_before);
             if need_new <= free_before as u64 {
                 return Some(fail(
